@@ -17,7 +17,7 @@ CLAIMS = {
   note="TypeRule (SmtTypes.tla) written from SMT-LIB and pySMT's documented specifics; function-typed symbols are never arguments",
   tech=TECH + "TLC-enumerated applications replayed on FormulaManager, outcomes validated by TLC against TypeRule", ref="DESIGN.md 3 C03"),
  "C02": dict(
-  text="TLC enumerates operator tables (every non-UF operator x every value tuple of the value pools; bit-vector operators at every operand value for width <= 3 quick / <= 5 thorough) and two-operator compositions; every EagerModel.get_value / satisfies outcome (total and partial models, with and without completion) is validated by TLC against GetValueContract, whose oracle is the TLA+ Eval.",
+  text="TLC enumerates operator tables (every non-UF operator x every value tuple of the value pools; bit-vector operators at every operand value for width <= 3 quick / <= 5 thorough) and two-operator compositions; every EagerModel.get_value / satisfies outcome (total and partial models, with and without completion) is validated by TLC against GetValueContract, whose oracle is the TLA+ Eval. Constants beyond 32 bits and bit-vectors of width 32-128 are validated against school-book arbitrary-precision reference arithmetic written in TLA+ (BigNat.tla); the plural entry points and a re-used model object are alternative spellings of the same question.",
   note="TLA+ Eval transcription of SMT-LIB operator semantics; value pools bounded (Int -7..7, 9 rationals, 12 strings, 4+2 constant arrays)",
   tech=TECH + "TLC-enumerated (formula, assignment) tables replayed on EagerModel, outcomes validated by TLC against Eval", ref="DESIGN.md 3 C02"),
  "C06": dict(
@@ -25,7 +25,7 @@ CLAIMS = {
   note="Derived.tla states the mathematical function per constructor (bvsmod by the mathematical definition, min/max by order, etc.); Int/Real arguments range over carriers",
   tech=TECH + "TLC-enumerated constructions replayed on FormulaManager/FNode operators, validated by TLC against the named function", ref="DESIGN.md 3 C06"),
  "C05": dict(
-  text="TLC enumerates (term, substitution map) pairs incl. nested/shadowing binders, sub-term keys, overlapping keys, capturing replacements; both real substituters and the function-interpretation path are run and every result is validated by TLC against SubstContract: exact equality with the reference MGS/MSS functions of Substitution.tla, the semantic substitution lemma (Eval) for capture-free symbol maps, interpreted-symbol elimination.",
+  text="TLC enumerates (term, substitution map) pairs incl. nested/shadowing binders, sub-term keys, overlapping keys, capturing replacements; both real substituters and the function-interpretation path are run and every result is validated by TLC against SubstContract: exact equality with the reference MGS/MSS functions of Substitution.tla, the semantic substitution lemma (Eval) for capture-free symbol maps, interpreted-symbol elimination. Chained maps (keys that only exist after another replacement) separate the two strategies; a binary interpreted function checks simultaneous binding of the formals.",
   note="Substitution.tla reference semantics; capture-freedom decided conservatively; interpretations bounded by carriers",
   tech=TECH + "TLC-enumerated (term,map) pairs replayed on MGSubstituter/MSSubstituter, results validated by TLC against reference MGS/MSS and the substitution lemma", ref="DESIGN.md 3 C05"),
  "C12": dict(
@@ -37,7 +37,7 @@ CLAIMS = {
   note="NormalForms.tla shape predicates; Int binders over three finite domains; interpretations bounded by carriers",
   tech=TECH + "TLC-enumerated formulas rewritten by pySMT, results validated by TLC for equivalence (Eval) and shape", ref="DESIGN.md 3 C10"),
  "C11": dict(
-  text="TLC enumerates quantifier-free Boolean structure (constants in every position, ite/iff, shared sub-formulas) and UF formulas with nested/repeated applications; cnf, cnf_as_set, PolarityCNFizer and Ackermannizer outputs are validated by TLC: shape (IsCNF / NoUF) and the two-way model correspondence with fresh symbols enumerated exhaustively and, for Ackermannization, function tables read off the ack constants.",
+  text="TLC enumerates quantifier-free Boolean structure (constants in every position, ite/iff, shared sub-formulas) and UF formulas with nested/repeated applications; cnf, cnf_as_set, PolarityCNFizer and Ackermannizer outputs are validated by TLC: shape (IsCNF / NoUF) and the two-way model correspondence with fresh symbols enumerated exhaustively and, for Ackermannization, function tables read off the ack constants. Converter objects are also reused over sequences of formulas.",
   note="fresh-symbol space enumerated up to 4096 combinations; original symbols over bounded carriers",
   tech=TECH + "TLC-enumerated formulas converted by pySMT, model-by-model equisatisfiability validated by TLC with Eval", ref="DESIGN.md 3 C11"),
  "C13": dict(
@@ -45,15 +45,15 @@ CLAIMS = {
   note="Features()/Expressible() of Logics.tla; difference-logic refinements are not among the listed features; NoLogicAvailableError is an allowed answer of get_logic",
   tech=TECH + "design model checking of the order + trace validation of recorded detection / order / selection results", ref="DESIGN.md 3 C13"),
  "C16": dict(
-  text="(A) TLC explores every command history (length <= 6) of the implementation-shaped TrackingSolver model (pending_pop, backtrack points, clear_pending_pop decorator) and checks it refines the abstract SMT-LIB assertion stack. (B/C) all legal histories of the abstract machine up to length 3-4 (plus TLC-simulated histories of length 14) are replayed into real SmtLibScript objects built by the real parser (get_last_formula with goals read for every prefix) and into real IncrementalTrackingSolver subclasses incl. the in-tree Portfolio; every observation is validated by TLC against the abstract state (live assertions, live objectives, soft groups).",
+  text="(A) TLC explores every command history (length <= 6) of the implementation-shaped TrackingSolver model (pending_pop, backtrack points, clear_pending_pop decorator) and checks it refines the abstract SMT-LIB assertion stack. (B/C) all legal histories of the abstract machine up to length 3-4 (plus TLC-simulated histories of length 14) are replayed into real SmtLibScript objects built by the real parser (get_last_formula with goals read for every prefix) and into real IncrementalTrackingSolver subclasses incl. the in-tree Portfolio; every observation is validated by TLC against the abstract state (live assertions, live objectives, soft groups). Assert commands are also issued through add_assertions with lists, generators and iterators.",
   note="AssertionStack.tla is the SMT-LIB assertion-stack semantics with objectives / soft assertions scoped by level; solver doubles have no-op _push/_pop/_solve",
   tech=TECH + "design model checking (refinement) + TLC-enumerated histories replayed into scripts/solvers, observations validated by TLC", ref="DESIGN.md 3 C16"),
  "C04": dict(
-  text="(A) TLC explores all histories of constructor calls (59 documented spellings / normalisations, length <= 3) in the implementation-shaped FormulaManager model (node table keyed by content, caches keyed by Python value equality) and checks OneObjectPerStructure, AccessorFidelity, TableInjective, CachesAgree. (B/C) TLC-enumerated (all singles, ordered pairs) and TLC-simulated (length 7) call histories are replayed in fresh Environments interleaved with unrelated constructions; identity classes and accessor read-back after every call are validated by TLC against the denotations of FMCalls.tla. normalize() into a second environment is validated for structural identity, no shared FNode objects, membership in the target manager.",
+  text="(A) TLC explores all histories of constructor calls (59 documented spellings / normalisations, length <= 3) in the implementation-shaped FormulaManager model (node table keyed by content, caches keyed by Python value equality) and checks OneObjectPerStructure, AccessorFidelity, TableInjective, CachesAgree. (B/C) TLC-enumerated (all singles, ordered pairs) and TLC-simulated (length 7) call histories are replayed in fresh Environments interleaved with unrelated constructions; identity classes and accessor read-back after every call are validated by TLC against the denotations of FMCalls.tla. normalize() into a second environment is validated for structural identity, no shared FNode objects, membership in the target manager. Numbers beyond TLC's 32-bit integers (2^60, the double nearest to 1/3) are denoted symbolically by their exact spelling; one long-lived target environment receives the copies of every source environment.",
   note="FMCalls.tla denotations are the documented spellings/normalisations; array-value assignment order (by object address) is abstracted by key-sorting",
   tech=TECH + "design model checking of the hash-consing state machine + TLC-generated call histories replayed on FormulaManager, identity/read-back validated by TLC", ref="DESIGN.md 3 C04"),
  "C20": dict(
-  text="(A) TLC model-checks the implementation-shaped DagWalker machine (explicit stack, memo, expand/compute phases, failure path, one-shot memo) for every rooted DAG shape (4 nodes quick / 5 thorough, fan-out <= 2): VisitOnce, PushBound, ChildrenFirst, FailureTransparent and termination (liveness under weak fairness); the pre-fix configuration must yield the known counterexample (vacuity guard). (B/C) the same shapes, instantiated with every nestable operator family, are fed to the real walkers whose per-instance function tables are wrapped from outside; TLC validates every logged callback sequence (each node at most K times, children first, only and all reachable nodes). Scaling families beyond TLC's reach (20,000-deep chains, 2^60-tree diamonds) are run through construction, simplify, substitute, oracles, get_logic, rewriters, DAG printing and re-parsing and validated for success and callbacks <= K * distinct nodes. Expansions (pops of unexpanded stack entries) are logged by wrapping _push_with_children_to_stack and bounded by the incoming edges; theory DAGs are also walked below an atom by the Boolean-level walkers.",
+  text="(A) TLC model-checks the implementation-shaped DagWalker machine (explicit stack, memo, expand/compute phases, failure path, one-shot memo) for every rooted DAG shape (4 nodes quick / 5 thorough, fan-out <= 2): VisitOnce, PushBound, ChildrenFirst, FailureTransparent and termination (liveness under weak fairness); the pre-fix configuration must yield the known counterexample (vacuity guard). (B/C) the same shapes, instantiated with every nestable operator family, are fed to the real walkers whose per-instance function tables are wrapped from outside; TLC validates every logged callback sequence (each node at most K times, children first, only and all reachable nodes). Scaling families beyond TLC's reach (20,000-deep chains, 2^60-tree diamonds) are run through construction, simplify, substitute, oracles, get_logic, rewriters, DAG printing and re-parsing and validated for success and callbacks <= K * distinct nodes. Expansions (pops of unexpanded stack entries) are logged by wrapping _push_with_children_to_stack and bounded by the incoming edges; theory DAGs are also walked below an atom by the Boolean-level walkers. Collections built by callbacks, all six size measures and one full-depth chain are part of the quick tier.",
   note="the absolute nesting depth reached is an observation on the interpreter; the algorithmic claims (visit-once, no per-level recursion) are model-checked and trace-validated. Parser work is measured by consumed text (it has no walker).",
   tech=TECH + "design model checking of the walker machine over all DAG shapes + trace validation of real callback sequences and scaling runs", ref="DESIGN.md 3 C20"),
  "C14": dict(
@@ -61,11 +61,11 @@ CLAIMS = {
   note="harness/envcalls.py call catalogue (4 formulas sharing sub-DAGs); raw Theory objects are probed to expose aliasing of memoised values",
   tech=TECH + "TLC-enumerated call histories replayed against twin environments, results validated by TLC up to AC / fresh-name equality", ref="DESIGN.md 3 C14"),
  "C15": dict(
-  text="(A) MC_Walker: FailureTransparent over every DAG shape and failing node in the implementation-shaped walker machine (the configuration without the clean-up yields the counterexample of the repaired defect). (B/C) TLC enumerates fault histories (all sequences of length <= 3 over 5 good + 16 failing calls with >= 1 failing call, simulated length 7); each runs on environment A, the history minus the failing calls on twin B, followed by a 20-probe suite incl. reused parser / substituter / simplifier objects; TLC validates that A and B answer every probe identically (up to AC order / fresh names).",
+  text="(A) MC_Walker: FailureTransparent over every DAG shape and failing node in the implementation-shaped walker machine (the configuration without the clean-up yields the counterexample of the repaired defect). (B/C) TLC enumerates fault histories (all sequences of length <= 3 over 5 good + 16 failing calls with >= 1 failing call, simulated length 7); each runs on environment A, the history minus the failing calls on twin B, followed by a 20-probe suite incl. reused parser / substituter / simplifier objects; TLC validates that A and B answer every probe identically (up to AC order / fresh names). A catalogue call that fails in a fresh environment must fail whatever was called before it.",
   note="failing-call classes of harness/envcalls.py: ill-typed construction, sort-breaking substitution at 5 depths, exception inside a walk, unsupported node/operator, undefined symbol, malformed SMT-LIB, HR syntax error",
   tech=TECH + "TLC-enumerated fault histories replayed on twin environments, probe results validated by TLC", ref="DESIGN.md 3 C15"),
  "C18": dict(
-  text="(A) TLC model-checks the implementation-shaped optimizer (OptSearchInterval bounds/pivot arithmetic, _optimize linear and binary search, min/max, Int / unsigned / signed BV objectives, lexicographic wrapper, Pareto loop) over a nondeterministic satisfiability oracle: every Sat subset of the model space, every objective valuation, every sequence of answers; termination (liveness, weak fairness), result = optimum / lexicographic optimum / exact Pareto front, None iff unsat, cuts representable, stack restored; the model of the pinned lexicographic wrapper must leak a level (vacuity guard). (B/C) the real SUA and incremental mixins run on a brute-force oracle over 8 finite-domain systems x goal kinds (incl. MinMax/MaxMin/MaxSMT) x {linear,binary} x adversarial oracle policies; TLC validates every oracle answer with Eval and the final outcome against the optimum it computes itself, plus the assertion stack before/after.",
+  text="(A) TLC model-checks the implementation-shaped optimizer (OptSearchInterval bounds/pivot arithmetic, _optimize linear and binary search, min/max, Int / unsigned / signed BV objectives, lexicographic wrapper, Pareto loop) over a nondeterministic satisfiability oracle: every Sat subset of the model space, every objective valuation, every sequence of answers; termination (liveness, weak fairness), result = optimum / lexicographic optimum / exact Pareto front, None iff unsat, cuts representable, stack restored; the model of the pinned lexicographic wrapper must leak a level (vacuity guard). (B/C) the real SUA and incremental mixins run on a brute-force oracle over 8 finite-domain systems x goal kinds (incl. MinMax/MaxMin/MaxSMT) x {linear,binary} x adversarial oracle policies; TLC validates every oracle answer with Eval and the final outcome against the optimum it computes itself, plus the assertion stack before/after. Pareto fronts are also computed for every bit-vector system x signed/unsigned x min/max pairs from worst / first / last starting candidates.",
   note="real-valued bisection excluded as in the property; oracle answers re-validated by TLC; routines are run under a 20 s limit (non-termination is reported as a violation)",
   tech=TECH + "design model checking over a nondeterministic oracle + real optimizer runs on a brute-force oracle validated by TLC", ref="DESIGN.md 3 C18"),
  "C19": dict(
@@ -73,7 +73,7 @@ CLAIMS = {
   note="fake member solvers registered in the environment's factory; the gating wrappers around multiprocessing.Process/Queue only delay and log; get_model on a winner that died after posting is outside the property",
   tech=TECH + "design model checking of the process/queue/pipe protocol (safety + liveness) + TLC-enumerated schedules replayed on real forked processes, outcomes validated by TLC", ref="DESIGN.md 3 C19"),
  "C07": dict(
-  text="TLC-generated formulas (all operators, indexed operators, negative/rational constants, strings with quotes, constant arrays, quantifiers, custom and parametric sorts) and variants whose symbols are renamed to names that need quoting or clash with the printer's own let names are printed by to_smtlib (tree and let-DAG form) and smtlibscript_from_formula+serialize; the produced TEXT is read by an independent SMT-LIB reader and validated by TLC against the meaning of SMT-LIB text defined in SmtLibSyntax.tla (elaboration per the standard: operator spellings/argument orders, indexed identifiers, parallel let, binder scoping, declarations before use): well-formed, symbols declared with their sorts, same sort, same value under every interpretation.",
+  text="TLC-generated formulas (all operators, indexed operators, negative/rational constants, strings with quotes, constant arrays, quantifiers, custom and parametric sorts) and variants whose symbols are renamed to names that need quoting or clash with the printer's own let names are printed by to_smtlib (tree and let-DAG form) and smtlibscript_from_formula+serialize; the produced TEXT is read by an independent SMT-LIB reader and validated by TLC against the meaning of SMT-LIB text defined in SmtLibSyntax.tla (elaboration per the standard: operator spellings/argument orders, indexed identifiers, parallel let, binder scoping, declarations before use): well-formed, symbols declared with their sorts, same sort, same value under every interpretation. Huge constants: the printed numerals are compared digit by digit with the constants (BigArithContract).",
   note="harness/sexpr.py reader and SmtLibSyntax.tla elaboration are written from the SMT-LIB 2.6 standard, independent of pysmt.smtlib; Pow has no SMT-LIB spelling and is outside the claim; NoLogicAvailableError from script creation is an allowed answer",
   tech=TECH + "TLC-generated formulas printed by pySMT, text validated by TLC against an SMT-LIB semantics in TLA+", ref="DESIGN.md 3 C07"),
  "C08": dict(
@@ -81,7 +81,7 @@ CLAIMS = {
   note="SmtLibSyntax.tla elaboration; spec/gen/accept_baseline.json generated from the repaired tree; four genuine defects are recorded as known findings (sequential let, capture, undeclared symbol as string, duplicate let binder)",
   tech=TECH + "TLC-enumerated SMT-LIB scripts parsed by pySMT, results validated by TLC against an SMT-LIB semantics in TLA+", ref="DESIGN.md 3 C08"),
  "C09": dict(
-  text="TLC-generated formulas (incl. variants with symbol names that need quoting) are printed as SMT-LIB scripts (tree and DAG) and parsed back in the same environment; TLC-generated scripts (Gen_Sx) are parsed, re-serialised and parsed again; formulas are serialised to the human-readable syntax and parsed back. TLC validates: the re-parsed formula is the very same object (a constant-array literal comes back as the equivalent chain of stores, AsStores); the two command lists are identical up to the fresh names of definition parameters; the HR round trip preserves type and meaning (Eval) and changes at most the grouping of n-ary operators.",
+  text="TLC-generated formulas (incl. variants with symbol names that need quoting) are printed as SMT-LIB scripts (tree and DAG) and parsed back in the same environment; TLC-generated scripts (Gen_Sx) are parsed, re-serialised and parsed again; formulas are serialised to the human-readable syntax and parsed back. TLC validates: the re-parsed formula is the very same object (a constant-array literal comes back as the equivalent chain of stores, AsStores); the two command lists are identical up to the fresh names of definition parameters; the HR round trip preserves type and meaning (Eval) and changes at most the grouping of n-ary operators. The module-level parse shortcut must agree with HRParser(env).parse in every environment.",
   note="non-Boolean terms t are round-tripped inside t = t; scripts with commands pySMT cannot serialise and formulas the HR parser rejects are outside the property",
   tech=TECH + "TLC-generated formulas/scripts round-tripped through the real printers and parsers, results validated by TLC", ref="DESIGN.md 3 C09"),
  "C17": dict(
